@@ -378,7 +378,7 @@ def check_dag(spec):
 def device_colour(spec, inst):
     c = spec["cells"][inst["of"][1]]
     if c["kind"] == "ext":
-        return ("ext:" + c["name"], inst.get("tag"))
+        return ("ext:" + c["name"] + ("@" + c["domain"] if c.get("domain", "verif") != "verif" else ""), inst.get("tag"))
     return ("prim:" + PRIMS[c["prim"]][0], inst.get("tag"))
 
 
